@@ -103,16 +103,17 @@ def _r6_r7(ctx):
     n6 = 0
     for hn in ('visit_Node', 'visit_ScopedNode'):
         f = T.function(hn)
+        hname = (X.names_assigned_from(f.node, 'self.mapper[') or ['handle'])[0]
         rets = [(n, g) for n, g in X.nodes_with_guards(f.node, lambda x: isinstance(x, ast.Return) and x.value is not None
-                                                       and 'handle._rebuild' in ast.unparse(x.value), early=True)]
+                                                       and f'{hname}._rebuild' in ast.unparse(x.value), early=True)]
         if len(rets) != 1:
             raise AnalysisError(f'Transformer.{hn}: replacement return not found')
         node, guards = rets[0]
         # only the guards that talk about the handle shape
-        gs = [g for g in guards if 'handle' in g and 'is None' not in g and 'self.mapper' not in g]
+        gs = [g for g in guards if hname in g and 'is None' not in g and 'self.mapper' not in g]
         n6 += 1
         for name, (h, want) in shapes.items():
-            env = {'handle': h, 'o': o, 'as_tuple': _as_tuple, 'is_iterable': _is_iterable}
+            env = {hname: h, 'o': o, 'as_tuple': _as_tuple, 'is_iterable': _is_iterable}
             try:
                 got = all(ev_ext(ast.parse(g, mode='eval').body, env) for g in gs)
             except Unknown as u:
@@ -247,7 +248,8 @@ def run(ctx):
     guard = [n for n in ast.walk(tv.node) if isinstance(n, ast.If) and 'self.rebuilt' in ast.unparse(n)]
     if guard:
         t = ast.unparse(guard[0].test)
-        (ctx.judge('R3', 'record guard', facts={'test': t}) if t == 'isinstance(o, Node) and obj is not o' else
+        on = (X.names_assigned_from(tv.node, 'super().visit(') or ['obj'])[0]
+        (ctx.judge('R3', 'record guard', facts={'test': t}) if t == f'isinstance(o, Node) and {on} is not o' else
          ctx.violation('R3', 'Transformer.visit:guard', tv.where, f'rebuilt is recorded under `{t}`'))
     subs = [c for mod in (m.module_by_path(FILE), m.module_by_path('loki/ir/expr_visitors.py'), m.module_by_path('loki/analyse/dataflow_analysis.py'))
             for c in mod.classes.values() if classes[0] in m.mro(c) and c is not classes[0]]
@@ -257,7 +259,8 @@ def run(ctx):
             continue
         rets = [r for r in ast.walk(v.node) if isinstance(r, ast.Return)]
         txt = ast.unparse(v.node)
-        ok = 'super().visit(' in txt and all('super().visit(' in ast.unparse(r) or ast.unparse(r.value) in ('obj',) for r in rets)
+        ons = set(X.names_assigned_from(v.node, 'super().visit('))
+        ok = 'super().visit(' in txt and all('super().visit(' in ast.unparse(r) or ast.unparse(r.value) in ons for r in rets)
         (ctx.judge('R3', f'{c.name}.visit funnels into Transformer.visit') if ok else
          ctx.violation('R3', f'{c.name}.visit', v.where, f'{c.name}.visit has an exit that bypasses Transformer.visit (no rebuilt record)'))
 
